@@ -530,6 +530,12 @@ package stree
 //@   at exit: ghost result.elems = t.elems
 //@   at exit: ghost result.vals = t.vals
 //@
+// KV.Compare adapts a comparison of keys to a comparison of key/value pairs that looks at the Key only.
+//@ func (KV).Compare
+//@   role compare ord
+//@   role result ord
+//@   ensures [C01,C04] adapter: result != nil && forall a KV[T, U], b KV[T, U] :: {ord(result, a, b)} ord(result, a, b) == ord(compare, a.Key, b.Key)
+//@
 // C03. A cursor is a path from a root down to its current node. pathOK is purely structural: every element is a
 // live node and each one is the left or right child of its predecessor (written over pairs (a, b = a+1), so that no
 // trigger term occurs in its own body). The contracts below decide the structural half of C03 (every move stays on
